@@ -21,15 +21,22 @@ abbrev D := DS Rat
 
 /-! ### JSON -/
 
+/-- labels on the wire: string, integer, `{"f": "p/q"}` = float-typed number, `null` = missing -/
 def asLbl (j : Json) : R Lbl :=
   match j with
+  | .null => pure .na
   | .str s => pure (.str s)
-  | .obj _ => do let q ← fld j "q" >>= asRat; pure (.num q)
+  | .obj _ =>
+    match j.getObjVal? "f" with
+    | .ok f => do let q ← asRat f; pure (.flt q)
+    | .error _ => do let q ← fld j "q" >>= asRat; pure (.num q)
   | _ => do let i ← asInt j; pure (.num (i : Rat))
 
 def ofLbl : Lbl → Json
   | .str s => Json.str s
   | .num q => if q.den = 1 then ofInt q.num else obj [("q", Json.str (Rsa.showRat q))]
+  | .flt q => obj [("f", Json.str (Rsa.showRat q))]
+  | .na => Json.null
 
 def asTbl (j : Json) : R Tbl := do
   (← asArr j).mapM (fun kv => do
@@ -112,9 +119,51 @@ def groupsOf (d : D) (k : String) : Nat :=
   | none => 0
   | some c => (uniqueFirst c).length
 
-def isIntOrStrCol (c : Col) : Bool := c.all (fun x => match x with | .num q => q.den == 1 | _ => true)
-
 def isIntCol (c : Col) : Bool := c.all (fun x => match x with | .num q => q.den == 1 | _ => false)
+
+def hasNa (c : Col) : Bool := c.contains .na
+
+/-- the `by` column of an operation must not hold a missing value (numpy's `unique` / `==` /
+    `argsort` on `None` / `NaN` are outside the property's admissible arguments) -/
+def byOk (t : Tbl) (k : String) : Bool := !(hasNa ((t.col k).getD []))
+
+/-- numpy dtype kind of a column: 1 integer, 2 float (numbers / NaN, at least one float or NaN),
+    3 string, 4 anything else (mixed: numpy would coerce on concatenation) -/
+def colKind (c : Col) : Nat :=
+  if c.all (fun x => match x with | .num _ => true | _ => false) then 1
+  else if floatCol c then 2
+  else if c.all (fun x => match x with | .str _ => true | _ => false) then 3
+  else 4
+
+/-- beyond the documented precondition (`mergeAdmissible`): concatenating the parts' columns must
+    not make numpy coerce values — every shared observation descriptor has one dtype kind in all
+    parts, every shared dataset descriptor likewise, and no dataset descriptor is missing
+    (`len({nan, nan}) == 2`) -/
+def mergeClean (ws : List D) : Bool :=
+  let obsKeys := sharedKeys (ws.map (·.obs))
+  let dKeys := sharedKeys (ws.map (·.desc))
+  obsKeys.all (fun k =>
+    let kinds := ws.map (fun d => colKind ((d.obs.col k).getD []))
+    kinds.all (fun x => x != 4 && some x == kinds.head?)) &&
+  dKeys.all (fun k =>
+    let vals := ws.filterMap (fun d => d.desc.lookup k)
+    !(vals.contains .na) &&
+    (let kinds := vals.map (fun v => colKind [v]); kinds.all (fun x => some x == kinds.head?)))
+
+/-- every observation descriptor column has one dtype (so every subset of it has the same one)
+    and no dataset descriptor is missing: the parts of a split can then be merged without numpy
+    coercing a value -/
+def pureCol (c : Col) : Bool :=
+  c.all (fun x => match x with | .num _ => true | _ => false) ||
+  c.all (fun x => match x with | .str _ => true | _ => false) ||
+  c.all (fun x => match x with | .flt _ => true | .na => true | _ => false)
+def dsClean (d : D) : Bool := d.obs.all (fun kc => pureCol kc.2) && !(d.desc.any (fun kv => kv.2 == .na))
+
+/-- shapes that `np.concatenate(axis=0)` refuses -/
+def shapesDiffer (ws : List D) : Bool :=
+  match ws with
+  | [] => false
+  | d0 :: _ => ws.any (fun d => d.nChan != d0.nChan || d.nTime != d0.nTime)
 
 inductive Out where
   | inadm
@@ -159,21 +208,26 @@ def step (ws : List D) (o : Json) : R (Json × Out) := do
     -- datasets of different classes are rejected by `merge_datasets` (ValueError)
     if ws.any (fun x => x.temporal != d.temporal) || ws.any (fun x => x.temporal != (ws.headD d).temporal)
     then pure (Json.null, .rejected)
+    else if ws.all nonEmpty && shapesDiffer ws then
+      -- `np.concatenate` refuses parts with different channel / time counts (ValueError); the
+      -- model's `merge` is not applicable either
+      pure (Json.null, if mergeAdmissible ws then .inadm else .rejected)
+    else if !(mergeClean ws) then pure (Json.null, .inadm)
     else pure (Json.null, ofApply ws .merge)
   | "split_obs" =>
     match pickKey d.obs k with
     | some by_ => pure (args [("by", Json.str by_)],
-        if ok then ofApply ws (.splitObs i by_) else .inadm)
+        if ok && byOk d.obs by_ then ofApply ws (.splitObs i by_) else .inadm)
     | none => pure (args [], .inadm)
   | "split_channel" =>
     match pickKey d.chan k with
     | some by_ => pure (args [("by", Json.str by_)],
-        if ok then ofApply ws (.splitChan i by_) else .inadm)
+        if ok && byOk d.chan by_ then ofApply ws (.splitChan i by_) else .inadm)
     | none => pure (args [], .inadm)
   | "split_time" =>
     match pickKey d.time k with
     | some by_ => pure (args [("by", Json.str by_)],
-        if ok && d.temporal then ofApply ws (.splitTime i by_) else .inadm)
+        if ok && d.temporal && byOk d.time by_ then ofApply ws (.splitTime i by_) else .inadm)
     | none => pure (args [], .inadm)
   | "subset_obs" | "subset_channel" =>
     let t := if name == "subset_obs" then d.obs else d.chan
@@ -186,7 +240,7 @@ def step (ws : List D) (o : Json) : R (Json × Out) := do
       let vals := if boolD o "scalar" then vals.take 1 else vals
       let a := args [("by", Json.str by_), ("vals", ofList ofLbl vals),
                      ("scalar", Json.bool (boolD o "scalar"))]
-      if !ok || (boolD o "scalar" && vals.isEmpty) then pure (a, .inadm)
+      if !ok || (boolD o "scalar" && vals.isEmpty) || hasNa col then pure (a, .inadm)
       else
         pure (a, ofApply ws (if name == "subset_obs" then .subsetObs i by_ vals else .subsetChan i by_ vals))
   | "subset_time" =>
@@ -200,21 +254,31 @@ def step (ws : List D) (o : Json) : R (Json × Out) := do
           let a := (pickVal col (natD o "lo")).getD (absentVal col)
           let b := (pickVal col (natD o "hi")).getD (absentVal col)
           if Lbl.le a b then (a, b) else (b, a)
+      -- a bound strictly between / outside the column's values: value ± 1/2 (float-typed)
+      let shift (x : Lbl) (k : Nat) : Lbl :=
+        match x.numVal, k with
+        | some q, 1 => .flt (q - 1/2)
+        | some q, 2 => .flt (q + 1/2)
+        | _, _ => x
+      let (lo, hi) := (shift lo (natD o "lo_off"), shift hi (natD o "hi_off"))
       let a := args [("by", Json.str by_), ("lo", ofLbl lo), ("hi", ofLbl hi)]
-      if ok && d.temporal then pure (a, ofApply ws (.subsetTime i by_ lo hi))
+      if ok && d.temporal && !hasNa col then pure (a, ofApply ws (.subsetTime i by_ lo hi))
       else pure (a, .inadm)
   | "sort_by" =>
     match pickKey d.obs k with
     | some by_ => pure (args [("by", Json.str by_)],
-        if ok then ofApply ws (.sortBy i by_) else .inadm)
+        if ok && byOk d.obs by_ then ofApply ws (.sortBy i by_) else .inadm)
     | none => pure (args [], .inadm)
   | "odd_even" =>
     match pickKey d.obs k with
     | some by_ =>
       let a := args [("by", Json.str by_)]
-      if ok && groupsOf d by_ ≥ 2 then
-        pure (a, ofApply ws (.oddEven i by_))
-      else pure (a, .inadm)
+      if !(ok && byOk d.obs by_ && dsClean d) then pure (a, .inadm)
+      else if groupsOf d by_ ≥ 2 then pure (a, ofApply ws (.oddEven i by_))
+      else
+        -- a single group: `merge_datasets([])` has nothing to return; the model's `oddEven` is
+        -- `none` for that reason and the real call must not return a result either
+        pure (a, if (oddEven by_ d).isNone then .rejected else .inadm)
     | none => pure (args [], .inadm)
   | "nested_odd_even" =>
     match pickKey d.obs k, pickKey d.obs (natD o "k2") with
@@ -223,9 +287,11 @@ def step (ws : List D) (o : Json) : R (Json × Out) := do
       let fine := match splitObs l1 d with
         | some parts => parts.all (fun p => groupsOf p l2 ≥ 2)
         | none => false
-      if ok && fine then
-        pure (a, ofApply ws (.nestedOddEven i l1 l2))
-      else pure (a, .inadm)
+      if !(ok && byOk d.obs l1 && byOk d.obs l2 && dsClean d) then pure (a, .inadm)
+      else if fine then pure (a, ofApply ws (.nestedOddEven i l1 l2))
+      else
+        -- some level-1 group has a single level-2 group: its odd/even split is rejected
+        pure (a, if (nestedOddEven l1 l2 d).isNone then .rejected else .inadm)
     | _, _ => pure (args [], .inadm)
   | "bin_time" =>
     match pickKey d.time k with
@@ -235,35 +301,32 @@ def step (ws : List D) (o : Json) : R (Json × Out) := do
       let bins ← (fldD o "bins" (Json.arr #[])) |> asList (asList asNat)
       let bins := bins.map (fun b => b.filterMap (pickVal col))
       let a := args [("by", Json.str by_), ("bins", ofList (ofList ofLbl) bins)]
-      if ok && d.temporal && isIntCol col && !bins.isEmpty
+      if ok && d.temporal && isIntCol col && !col.isEmpty && !bins.isEmpty
           && bins.all (fun b => !b.isEmpty) then
         pure (a, ofApply ws (.binTime i by_ bins))
       else pure (a, .inadm)
   | "time_as_observations" =>
     match pickKey d.time k with
     | some by_ => pure (args [("by", Json.str by_)],
-        if ok && d.temporal then ofApply ws (.timeAsObs i by_) else .inadm)
+        if ok && d.temporal && byOk d.time by_ then ofApply ws (.timeAsObs i by_) else .inadm)
     | none => pure (args [], .inadm)
   | "time_as_channels" =>
     pure (args [], if ok && d.temporal then ofApply ws (.timeAsChan i) else .inadm)
   | "df" | "df_default" =>
     match pickKey d.chan k with
     | some key =>
-      let col := (d.chan.col key).getD []
       let a := args [("key", Json.str key)]
-      -- `df_default` lets from_df find the channels by dtype: representable only when no
-      -- descriptor holds non-integer numbers (float columns are read as channels)
-      let repr := name == "df" || (d.obs.all (fun kc => isIntOrStrCol kc.2) &&
-        d.desc.all (fun kv => isIntOrStrCol [kv.2]))
-      if ok && !d.temporal && repr && (uniqueFirst col).length == col.length then
-        pure (a, ofApply ws (.df i key))
+      -- the representable classes (`dfRepresentable`, `dfDefaultRepresentable`) are part of the
+      -- proved model: `applyOp` answers `none` outside them
+      if ok && !d.temporal then
+        pure (a, ofApply ws (if name == "df" then .df i key else .dfDefault i key))
       else pure (a, .inadm)
     | none => pure (args [], .inadm)
   | "average_by" =>
     match pickKey d.obs k with
     | some by_ =>
       let a := args [("by", Json.str by_)]
-      if ok && !d.temporal then
+      if ok && !d.temporal && byOk d.obs by_ then
         match averageBy by_ d with
         | some (avg, us, ns) => pure (a, .query (obj [("avg", ofList (ofList ofRat) avg),
             ("uniq", ofList ofLbl us), ("n", ofList ofNat ns)]))
@@ -276,7 +339,7 @@ def step (ws : List D) (o : Json) : R (Json × Out) := do
       let a := args [("by", Json.str by_)]
       let col := (d.obs.col by_).getD []
       let sizes := (uniqueFirst col).map (fun u => (indicesWhere (fun x => x == u) col).length)
-      if ok && !d.temporal && sizes.all (fun s => some s == sizes.head?) then
+      if ok && !d.temporal && byOk d.obs by_ && sizes.all (fun s => some s == sizes.head?) then
         match tensorBy by_ d with
         | some (t, us) => pure (a, .query (obj [("tensor", ofList (ofList (ofList ofRat)) t),
             ("uniq", ofList ofLbl us)]))
